@@ -195,6 +195,12 @@ impl RK23 {
                 break;
             }
 
+            // Check for underflow due to machine rounding
+            if 0.1 * h.abs() <= x.abs() * Float::EPSILON {
+                status = Status::StepSizeTooSmall;
+                break;
+            }
+
             // Check for last step adjustment
             if (x + h - xend) * posneg > 0.0 {
                 h = xend - x;
@@ -304,9 +310,15 @@ impl RK23 {
                 #[cfg(feature = "verif")]
                 crate::verif::tick(crate::verif::RK23_REJECT);
                 steps.rejected += 1;
-                h *= (safety_factor * err.powf(error_exponent))
-                    .min(1.0)
-                    .max(scale_min);
+                // A NaN error norm must shrink the step like any other rejection
+                // (NaN.min(1.0) would leave h unchanged and loop forever).
+                h *= if err.is_nan() {
+                    scale_min
+                } else {
+                    (safety_factor * err.powf(error_exponent))
+                        .min(1.0)
+                        .max(scale_min)
+                };
             }
         }
 
